@@ -98,8 +98,10 @@ theorem updatePeer_a (w : Wantlist) (now : Nat) (ps : PeerSt) (pref : Option Nat
     (hc : ps.conns.isEmpty = false) (hv : ReqVals ps) :
     (ps.sending = .sending 1 → Client.updatePeer w now ps pref = (some ps, none)) ∧
     (ps.sending = .ready → ∃ ps', (Client.updatePeer w now ps pref).1 = some ps' ∧ ReqVals ps' ∧
+      ps'.conns = ps.conns ∧
       (((Client.updatePeer w now ps pref).2 = none ∧ ps'.sending = .ready) ∨
-        ∃ c m, (Client.updatePeer w now ps pref).2 = some (c, m))) := by
+        ∃ m, (Client.updatePeer w now ps pref).2 = some (Client.pickConn ps.conns pref, m) ∧
+          ps'.sending = .requested now (Client.pickConn ps.conns pref))) := by
   constructor
   · intro hs
     rw [ClientView.updatePeer_eq, hs]
@@ -125,9 +127,9 @@ theorem updatePeer_a (w : Wantlist) (now : Nat) (ps : PeerSt) (pref : Option Nat
     generalize ClientView.goPeer w now pref ps = res at hr
     cases hr with
     | drop h => rw [hc] at h; cases h
-    | full _ _ => exact ⟨_, rfl, hfull, .inr ⟨_, _, rfl⟩⟩
-    | quiet _ _ _ => exact ⟨_, rfl, hupd, .inl ⟨rfl, hs⟩⟩
-    | upd _ _ _ => exact ⟨_, rfl, hupd, .inr ⟨_, _, rfl⟩⟩
+    | full _ _ => exact ⟨_, rfl, hfull, rfl, .inr ⟨_, rfl, rfl⟩⟩
+    | quiet _ _ _ => exact ⟨_, rfl, hupd, rfl, .inl ⟨rfl, hs⟩⟩
+    | upd _ _ _ => exact ⟨_, rfl, hupd, rfl, .inr ⟨_, rfl, rfl⟩⟩
 
 theorem list_eq_singleton : ∀ {l : List Nat} {a : Nat}, l.Nodup → (∀ x ∈ l, x = a) → a ∈ l → l = [a]
   | [], _, _, _, ha => by cases ha
@@ -144,7 +146,7 @@ theorem list_eq_singleton : ∀ {l : List Nat} {a : Nat}, l.Nodup → (∀ x ∈
 def drainedC (c : Client.State) (now seq : Nat) (pref : Nat → Option Nat) : Client.State :=
   let d := Client.drain c now seq pref
   let c' : Client.State := { d.1 with newBlocks := [] }
-  if d.2.2.any isSend then Client.sendingChanged c' 1 (.sending 1) else c'
+  if d.2.2.any isSend then Client.sendingChanged c' 1 1 (.sending 1) else c'
 
 theorem drainedC_frame (c : Client.State) (now seq : Nat) (pref : Nat → Option Nat) :
     ∃ P, drainedC c now seq pref = { (ClientView.afterTasks c now seq).1 with peers := P, newBlocks := [] } := by
@@ -154,13 +156,16 @@ theorem drainedC_frame (c : Client.State) (now seq : Nat) (pref : Nat → Option
   have hu := updateHandlers_frame (ClientView.afterTasks c now seq).1 now pref
   split
   · obtain ⟨P, h⟩ := sendingChanged_frame
-      { (Client.updateHandlers (ClientView.afterTasks c now seq).1 now pref).1 with newBlocks := [] } 1 (.sending 1)
+      { (Client.updateHandlers (ClientView.afterTasks c now seq).1 now pref).1 with newBlocks := [] } 1 1 (.sending 1)
     refine ⟨P, ?_⟩
     rw [h, hu]
   · refine ⟨(Client.updateHandlers (ClientView.afterTasks c now seq).1 now pref).1.peers, ?_⟩
     rw [hu]
 
-theorem drainedC_peers (c : Client.State) (now seq : Nat) (pref : Nat → Option Nat) (p : Nat) :
+theorem drainedC_peers (c : Client.State) (now seq : Nat) (pref : Nat → Option Nat) (p : Nat)
+    (htr : (Client.drain c now seq pref).2.2.any isSend = true →
+      ∀ ps, (Client.drain c now seq pref).1.peers[1]? = some ps →
+        ps.sending.conn? = none ∨ ps.sending.conn? = some 1) :
     (drainedC c now seq pref).peers[p]? =
       if (Client.drain c now seq pref).2.2.any isSend = true ∧ p = 1 then
         ((Client.drain c now seq pref).1.peers[1]?).map (fun ps => ({ ps with sending := .sending 1 } : PeerSt))
@@ -169,15 +174,17 @@ theorem drainedC_peers (c : Client.State) (now seq : Nat) (pref : Nat → Option
   dsimp only
   by_cases h : (Client.drain c now seq pref).2.2.any isSend = true
   · simp only [h, if_true, true_and]
-    rw [sendingChanged_peers]
+    exact sendingChanged_peers { (Client.drain c now seq pref).1 with newBlocks := [] } _ _ (htr h)
   · have h : (Client.drain c now seq pref).2.2.any isSend = false := by simpa using h
     simp only [h, Bool.false_eq_true, if_false, false_and]
 
 /-- the handshake across a drain -/
-theorem drain_apeer {c : Client.State} {w : List WlMsg} (now seq : Nat) (pref : Nat → Option Nat)
+theorem drain_apeer_tracked {c : Client.State} {w : List WlMsg} (now seq : Nat) (pref : Nat → Option Nat)
     (hp : APeer c w) (hconn : ∀ ps, c.peers[1]? = some ps → ps.conns.isEmpty = false)
     (hq : ∀ p c' m, Out.send p c' m ∉ c.queue) :
-    APeer (drainedC c now seq pref) (w ++ outSends (Client.drain c now seq pref).2.2) := by
+    APeer (drainedC c now seq pref) (w ++ outSends (Client.drain c now seq pref).2.2) ∧
+    (∀ ps0, (Client.drain c now seq pref).1.peers[1]? = some ps0 →
+        ps0.sending.conn? = none ∨ ps0.sending.conn? = some 1) := by
   obtain ⟨ps, hps, hw, hv⟩ := hp.one
   obtain ⟨_, a2, _, _, a5⟩ := ClientView.afterTasks_spec c now seq
   have hsub := (afterTasks_frame c now seq).2.2.2.2.2
@@ -246,18 +253,46 @@ theorem drain_apeer {c : Client.State} {w : List WlMsg} (now seq : Nat) (pref : 
     rw [houts, List.any_append, List.any_append, any_isSend_false _ hq, any_isSend_false _ a5]
     rfl
   obtain ⟨up1, up2⟩ := updatePeer_a (ClientView.afterTasks c now seq).1.wantlist now psA (pref 1) hcA' hvA
+  -- the one connection is connection 1, so that is where every wantlist goes
+  have hpick : Client.pickConn psA.conns (pref 1) = 1 := by
+    have := ClientView.pickConn_mem psA.conns (pref 1) hcA'
+    rw [hcA] at this
+    rw [hcA]
+    exact (hp.conn1 ps hps _).1 this
+  have hconns : ∀ ps1, (Client.updatePeer (ClientView.afterTasks c now seq).1.wantlist now psA (pref 1)).1 = some ps1 →
+      ps1.conns = ps.conns ∧ (ps1.sending.conn? = none ∨ ps1.sending.conn? = some 1) := by
+    intro ps1 h1
+    rcases hw with ⟨hs, _⟩ | ⟨hs, _, _⟩
+    · obtain ⟨ps', e1, _, hc', hcase⟩ := up2 (hsA.trans hs)
+      rw [e1] at h1; cases h1
+      refine ⟨by rw [hc', hcA], ?_⟩
+      rcases hcase with ⟨_, hs'⟩ | ⟨m, _, hs'⟩
+      · left; rw [hs']; rfl
+      · right; rw [hs', hpick]; rfl
+    · rw [up1 (hsA.trans hs)] at h1; cases h1
+      exact ⟨hcA, .inr (by rw [hsA.trans hs]; rfl)⟩
+  have htr0 : ∀ ps0, (Client.drain c now seq pref).1.peers[1]? = some ps0 →
+        ps0.sending.conn? = none ∨ ps0.sending.conn? = some 1 := by
+    intro ps0 h0
+    rw [hD1, hU1 1] at h0
+    simp only [if_true] at h0
+    exact (hconns ps0 h0).2
+  have htr : (Client.drain c now seq pref).2.2.any isSend = true →
+      ∀ ps0, (Client.drain c now seq pref).1.peers[1]? = some ps0 →
+        ps0.sending.conn? = none ∨ ps0.sending.conn? = some 1 := fun _ => htr0
+  refine ⟨?_, htr0⟩
   constructor
   · intro p hp1
-    rw [drainedC_peers]
+    rw [drainedC_peers _ _ _ _ _ htr]
     simp only [hp1, and_false, if_false]
     rw [hD1, hU1 p]
     simp [hp1]
-  · rw [drainedC_peers, hany, hsends, hD1, hU1 1, hU2]
+  · rw [drainedC_peers _ _ _ _ _ htr, hany, hsends, hD1, hU1 1, hU2]
     simp only [and_true, if_true]
     rcases hw with ⟨hs, hw⟩ | ⟨hs, m, hw⟩
     · -- ready
-      obtain ⟨ps', e1, hv', hcase⟩ := up2 (hsA.trans hs)
-      rcases hcase with ⟨e2, hs'⟩ | ⟨cc, m, e2⟩
+      obtain ⟨ps', e1, hv', _, hcase⟩ := up2 (hsA.trans hs)
+      rcases hcase with ⟨e2, hs'⟩ | ⟨m, e2, _⟩
       · rw [e2, e1]
         simp only [List.any_nil, Bool.false_eq_true, if_false]
         exact ⟨ps', rfl, .inl ⟨hs', by rw [hw]; rfl⟩, hv'⟩
@@ -269,6 +304,32 @@ theorem drain_apeer {c : Client.State} {w : List WlMsg} (now seq : Nat) (pref : 
       rw [e]
       simp only [List.any_nil, Bool.false_eq_true, if_false]
       exact ⟨psA, rfl, .inr ⟨hsA.trans hs, m, by rw [hw]; rfl⟩, hvA⟩
+  · intro ps0 h0 x
+    rw [drainedC_peers _ _ _ _ _ htr, hD1, hU1 1] at h0
+    simp only [and_true, if_true] at h0
+    by_cases ha : (Client.drain c now seq pref).2.2.any isSend = true
+    · rw [if_pos ha] at h0
+      obtain ⟨ps1, h1, e⟩ := Option.map_eq_some_iff.1 h0
+      subst e
+      show x ∈ ps1.conns ↔ x = 1
+      rw [(hconns ps1 h1).1]; exact hp.conn1 ps hps x
+    · rw [if_neg ha] at h0
+      rw [(hconns ps0 h0).1]; exact hp.conn1 ps hps x
+
+/-- the handshake across a drain -/
+theorem drain_apeer {c : Client.State} {w : List WlMsg} (now seq : Nat) (pref : Nat → Option Nat)
+    (hp : APeer c w) (hconn : ∀ ps, c.peers[1]? = some ps → ps.conns.isEmpty = false)
+    (hq : ∀ p c' m, Out.send p c' m ∉ c.queue) :
+    APeer (drainedC c now seq pref) (w ++ outSends (Client.drain c now seq pref).2.2) :=
+  (drain_apeer_tracked now seq pref hp hconn hq).1
+
+/-- after a drain the transmission to `b` is tracked on connection 1 (or on none) -/
+theorem drain_tracked {c : Client.State} {w : List WlMsg} (now seq : Nat) (pref : Nat → Option Nat)
+    (hp : APeer c w) (hconn : ∀ ps, c.peers[1]? = some ps → ps.conns.isEmpty = false)
+    (hq : ∀ p c' m, Out.send p c' m ∉ c.queue) :
+    ∀ ps0, (Client.drain c now seq pref).1.peers[1]? = some ps0 →
+        ps0.sending.conn? = none ∨ ps0.sending.conn? = some 1 :=
+  (drain_apeer_tracked now seq pref hp hconn hq).2
 
 theorem sendOf_not_resp (s : Client.State) (now : Nat) (pref : Nat → Option Nat) (p q d : Nat) :
     ClientView.sendOf s now pref p ≠ some (Out.resp q d) := by
